@@ -1605,8 +1605,8 @@ def rule_pu2(ctx: Ctx) -> RuleResult:
         opened = [e for e in p.trace if e.k == "call" and e.func == ("glob", "pyarrow.parquet.ParquetFile")]
         for e in opened:
             a0 = e.args[0] if e.args and e.args[0][0] != "kw" else next((a[2] for a in e.args if a[0] == "kw" and a[1] == "source"), None)
-            src_ok = a0 is not None and ((a0[0] == "param" and a0[1] == "filename") or (
-                a0[0] == "ucall" and a0[1] == "open_obj" and a0[2] and a0[2][0][0] == "param" and a0[2][0][1] == "filename"))
+            # (directly, or through whatever opens / wraps it: open_obj(filename, ...), contextlib.nullcontext(filename))
+            src_ok = a0 is not None and any(isinstance(x, tuple) and len(x) > 1 and x[0] == "param" and x[1] == "filename" for x in subterms(a0))
             r.ob(src_ok, lambda e=e, a0=a0, p=p: Finding(
                 "PU-2", "%s::load_from_file.%s{source}" % (PQ, callers[0].name), e.where(),
                 "the parquet reader is opened on %s: it must be the file object the caller gave, or the file opened from the caller's path" % (
